@@ -33,6 +33,7 @@ package monc
 
 import (
 	"context"
+	"database/sql"
 	"encoding/json"
 	"errors"
 	"fmt"
@@ -148,6 +149,58 @@ func vfNewNode(name string) (*vfNode, error) {
 	return nil, fmt.Errorf("node %s does not answer", name)
 }
 
+// ---------------------------------------------------------------- not-found shapes
+
+// The shapes in which the collection reports an absent document (a decorated
+// mon.Collection - tracing, repository layer - may wrap what the driver says).
+// go-zero classifies the error with errors.Is against the configured not-found
+// error (mongo.ErrNoDocuments for every monc constructor): the first five shapes
+// mean "no such document" (FindOne returns the configured error, the marker is
+// cached), the last two are negative controls - another package's not-found
+// error, the same text under another identity - i.e. database errors: returned
+// as they are, never cached.
+var vfShapes = []string{"bare", "wrap1", "wrap2", "join", "is-method", "foreign", "lookalike"}
+
+func vfNegShape(s string) bool { return s == "foreign" || s == "lookalike" }
+
+// vfShapeClass is the shape as it appears in violation keys: bare | indirect | foreign | lookalike.
+func vfShapeClass(s string) string {
+	switch s {
+	case "", "bare":
+		return "bare"
+	case "foreign", "lookalike":
+		return s
+	}
+	return "indirect"
+}
+
+func vfGenShape(r *kit.Rand) string { return vfShapes[r.Pick(36, 14, 10, 10, 10, 10, 10)] }
+
+type vfIsNF struct{ what string }
+
+func (e *vfIsNF) Error() string        { return "verif: repository: " + e.what + " does not exist" }
+func (e *vfIsNF) Is(target error) bool { return target == mongo.ErrNoDocuments }
+
+var vfErrOther = errors.New("verif: audit log unavailable")
+
+func vfShapeNF(shape, what string) error {
+	switch shape {
+	case "wrap1":
+		return fmt.Errorf("find %s: %w", what, mongo.ErrNoDocuments)
+	case "wrap2":
+		return fmt.Errorf("repository: %w", fmt.Errorf("find %s: %w", what, mongo.ErrNoDocuments))
+	case "join":
+		return errors.Join(vfErrOther, mongo.ErrNoDocuments)
+	case "is-method":
+		return &vfIsNF{what}
+	case "foreign":
+		return sql.ErrNoRows
+	case "lookalike":
+		return errors.New(mongo.ErrNoDocuments.Error())
+	}
+	return mongo.ErrNoDocuments
+}
+
 // ---------------------------------------------------------------- the database
 
 type vfDoc struct {
@@ -168,9 +221,18 @@ type vfQRec struct {
 	Val        int64  `json:"val"`
 }
 
-type vfQErr struct{ qid int64 }
+type vfQErr struct {
+	qid   int64
+	inner error // negative control: the not-found look-alike the query reported an absent document with
+}
 
-func (e *vfQErr) Error() string { return fmt.Sprintf("verif: database error of query %d", e.qid) }
+func (e *vfQErr) Error() string {
+	if e.inner != nil {
+		return fmt.Sprintf("verif: query %d: %v", e.qid, e.inner)
+	}
+	return fmt.Sprintf("verif: database error of query %d", e.qid)
+}
+func (e *vfQErr) Unwrap() error { return e.inner }
 
 // vfColl is the harness-owned collection. Methods that are not overridden
 // panic (nil embedded interface): the harness drives only these.
@@ -181,6 +243,8 @@ type vfColl struct {
 	fail    bool
 	q       map[string]int // FindOne calls per document id
 	version int64
+	shape   string // the shape in which FindOne reports an absent document ("" = bare)
+	lastNF  error  // what the last FindOne of the current op reported an absent document with
 
 	// bursts
 	burst  bool
@@ -230,6 +294,10 @@ func (c *vfColl) FindOne(ctx context.Context, filter any, _ ...*mopt.FindOneOpti
 	if c.fail {
 		return vfSingle(nil, vfErrDB)
 	}
+	if c.docs[id] == nil {
+		c.lastNF = vfShapeNF(c.shape, id)
+		return vfSingle(nil, c.lastNF)
+	}
 	return vfSingle(c.docs[id], nil)
 }
 
@@ -249,9 +317,13 @@ func (c *vfColl) burstFind(ctx context.Context, id string) (*mongo.SingleResult,
 	var err error
 	switch c.mode {
 	case "error":
-		q.Outcome, err = "error", &vfQErr{q.Qid}
+		q.Outcome, err = "error", &vfQErr{qid: q.Qid}
 	case "notfound":
-		q.Outcome = "notfound"
+		if vfNegShape(c.shape) {
+			q.Outcome, err = "error", &vfQErr{qid: q.Qid, inner: vfShapeNF(c.shape, id)}
+		} else {
+			q.Outcome, err = "notfound", vfShapeNF(c.shape, id)
+		}
 	default:
 		q.Outcome, q.Val = "row", q.Qid
 		d = &vfDoc{ID: id, Val: q.Qid, Pad: fmt.Sprintf("q%d", q.Qid)}
@@ -523,12 +595,13 @@ type vfHist struct {
 	prev   map[string]vfEntry
 	log    []string
 	bad    bool
+	must   map[string]string // key -> violation key: the op has to leave an entry under the key
 
 	hits, invalidated, expired, faults int
 }
 
-func (h *vfHist) id(i int) string   { return fmt.Sprintf("%sd%d", h.prefix, i) }
-func (h *vfHist) key(i int) string  { return "cache:doc:" + h.id(i) }
+func (h *vfHist) id(i int) string    { return fmt.Sprintf("%sd%d", h.prefix, i) }
+func (h *vfHist) key(i int) string   { return "cache:doc:" + h.id(i) }
 func (h *vfHist) model(i int) *Model { return h.models[i%len(h.models)] }
 
 func (h *vfHist) viol(key, what string, extra map[string]any) {
@@ -657,9 +730,15 @@ type vfOp struct {
 	On   bool          `json:"on,omitempty"`
 	Kind int32         `json:"kind,omitempty"`
 	Node int           `json:"node,omitempty"`
+	NF   string        `json:"nf,omitempty"` // find: the shape in which the collection reports an absent document
 }
 
 func (o vfOp) String() string {
+	if o.NF != "" && o.NF != "bare" {
+		nf := o.NF
+		o.NF = ""
+		return o.String() + "~" + nf
+	}
 	switch o.K {
 	case "find", "findnc", "get", "del":
 		return fmt.Sprintf("%s(d%d)@m%d", o.K, o.Doc, o.Mod)
@@ -705,6 +784,7 @@ func vfGenOps(r *kit.Rand, cfg vfConfig, n int, faults bool) []vfOp {
 		switch r.Pick(34, 6, wW, 5, 5, wW/4, 10, wF) {
 		case 0:
 			o.K = "find"
+			o.NF = vfGenShape(r)
 		case 1:
 			o.K = "findnc"
 		case 2:
@@ -745,6 +825,8 @@ func vfGenOps(r *kit.Rand, cfg vfConfig, n int, faults bool) []vfOp {
 func (h *vfHist) step(o vfOp) {
 	h.log = append(h.log, o.String())
 	h.coll.q = map[string]int{}
+	h.coll.lastNF = nil
+	h.must = map[string]string{}
 	vfClock.Advance(11 * time.Second)
 	ctx := context.Background()
 	written := map[string]string{} // key -> class
@@ -760,7 +842,9 @@ func (h *vfHist) step(o vfOp) {
 		var got vfDoc
 		var err error
 		if o.K == "find" {
+			h.coll.shape = o.NF
 			err = m.FindOne(ctx, key, &got, filter)
+			h.coll.shape = ""
 		} else {
 			err = m.FindOneNoCache(ctx, &got, filter)
 		}
@@ -813,13 +897,42 @@ func (h *vfHist) step(o vfOp) {
 				h.viol("C06/dberr/not-returned/read", "uncached FindOne during a database failure returned "+vfResStr(got, err), res)
 			}
 			mustAbsent[key] = "C06/dberr/cached/read"
+		case want == nil && vfNegShape(o.NF):
+			// negative control: "absent" said through an error that is not the configured not-found error
+			// is a database error for this store: returned as it is, never cached
+			h.c.Obs("m_uncached_reads", 1)
+			h.c.Obs("m_absent_doc_reads_shape_"+o.NF, 1)
+			res["query_reported"] = fmt.Sprint(h.coll.lastNF)
+			if err == nil || h.coll.lastNF == nil || !errors.Is(err, h.coll.lastNF) || errors.Is(err, ErrNotFound) {
+				h.viol("C06/dberr/not-returned/notfound-"+vfShapeClass(o.NF), fmt.Sprintf("the query for %s failed with %q, which is not the configured not-found error; FindOne returned %s", key, fmt.Sprint(h.coll.lastNF), vfResStr(got, err)), res)
+			}
+			mustAbsent[key] = "C06/dberr/cached/notfound-" + vfShapeClass(o.NF)
 		default:
 			h.c.Obs("m_uncached_reads", 1)
-			if !vfSame(got, err, want) {
+			ok := vfSame(got, err, want)
+			if !ok {
 				h.viol("C06/coherence/uncached-read-wrong/read", fmt.Sprintf("FindOne of %s returned %s, database holds %v", key, vfResStr(got, err), want), res)
 			}
 			if q != 1 {
 				h.viol("C06/query/count/uncached-read", fmt.Sprintf("uncached FindOne ran %d database queries", q), res)
+			}
+			cls := "row"
+			if want == nil {
+				shape := o.NF
+				if shape == "" {
+					shape = "bare"
+				}
+				cls = "notfound-" + vfShapeClass(shape)
+				h.c.Obs("m_absent_doc_reads_shape_"+shape, 1)
+				res["query_reported"] = fmt.Sprint(h.coll.lastNF)
+				// the unchanged tree returns the configured value itself whatever the query's error looked like
+				if ok && err != ErrNotFound {
+					h.viol("C06/notfound/not-the-configured-value/"+vfShapeClass(shape), fmt.Sprintf("the query reported the absent document as %q; FindOne returned %q (%T), which is not the configured not-found error itself", fmt.Sprint(h.coll.lastNF), err.Error(), err), res)
+				}
+			}
+			// what the query returned is cached from now on (healthy store): the next read must not reach the database
+			if ok && !st.node.setFails() {
+				h.must[key] = "C06/uncached-read/not-cached/" + cls
 			}
 			written[key] = "take"
 			st.polluted = false
@@ -1006,6 +1119,17 @@ func (h *vfHist) checkScan(written, mustAbsent map[string]string, ff bool) {
 		}
 		h.c.Obs("ttl_checks", 1)
 	}
+	for k, why := range h.must {
+		if e, ok := post[k]; !ok {
+			h.viol(why, fmt.Sprintf("key %s holds nothing after the read that had to load it: the next read will query the database again", k), map[string]any{"after_op": post})
+		} else {
+			h.c.Obs("m_uncached_reads_cached_afterwards", 1)
+			if e.Val == "*" {
+				h.c.Obs("m_markers_written", 1)
+			}
+		}
+	}
+	h.must = nil
 	for k := range h.prev {
 		if _, still := post[k]; !still {
 			if st := h.ks[k]; st != nil {
@@ -1057,14 +1181,27 @@ func vfSeq(w *vfWorld, c *kit.Case) {
 // ---------------------------------------------------------------- bursts
 
 type vfReader struct {
-	ID       int    `json:"reader"`
-	Doc      int    `json:"doc"`
-	Late     bool   `json:"late"`
-	Model    int    `json:"model"`
+	ID    int  `json:"reader"`
+	Doc   int  `json:"doc"`
+	Late  bool `json:"late"`
+	Model int  `json:"model"`
+	// what the caller does with the object it handed to FindOne once FindOne returned:
+	// overwrite every field (Scribble), then read another document into it (ReuseBy)
+	Scribble bool `json:"scribbles_over_its_result_after_return,omitempty"`
+	ReuseBy  int  `json:"then_reads_another_document_into_it_as_reader,omitempty"`
+	ReuseOf  int  `json:"reuses_the_object_of_reader"` // -1: an object of its own
 	Inv, Ret uint64
 	Got      vfDoc  `json:"got"`
 	Err      string `json:"err"`
 	err      error
+}
+
+func vfScribble(id int) vfDoc {
+	return vfDoc{ID: fmt.Sprintf("scribbled-by-reader-%d", id), Val: int64(-7000000 - id), Pad: "scribbled over by the caller after its read had returned"}
+}
+
+func vfScribbled(d vfDoc) bool {
+	return strings.HasPrefix(d.ID, "scribbled") || d.Val <= -7000000 || strings.HasPrefix(d.Pad, "scribbled")
 }
 
 func vfBurst(w *vfWorld, c *kit.Case) {
@@ -1089,13 +1226,14 @@ func vfBurst(w *vfWorld, c *kit.Case) {
 	}
 	coll.gate = make(chan struct{})
 	coll.gated.Store(int64(r.Range(1, 2)))
+	coll.shape = vfGenShape(r)
 	nReaders := r.Range(2, 8)
 	nKeys := 1 + r.Pick(3, 1)
 	readers := make([]*vfReader, nReaders)
 	delays := make([]time.Duration, nReaders)
 	early := 0
 	for i := range readers {
-		rr := &vfReader{ID: i, Doc: r.Intn(nKeys), Late: i > 0 && r.Chance(0.25), Model: r.Intn(nModels)}
+		rr := &vfReader{ID: i, Doc: r.Intn(nKeys), Late: i > 0 && r.Chance(0.25), Model: r.Intn(nModels), Scribble: r.Chance(0.75), ReuseOf: -1}
 		if !rr.Late {
 			early++
 		}
@@ -1104,19 +1242,39 @@ func vfBurst(w *vfWorld, c *kit.Case) {
 		coll.gauges[h.id(rr.Doc)] = &kit.Gauge{}
 	}
 	hold := time.Duration(r.Intn(3000)) * time.Microsecond
+	// some of the callers that scribble go on to read another document (one the burst does not read
+	// otherwise) into the same object; these reads are readers of their own (appended)
+	for i := 0; i < nReaders; i++ {
+		if rr := readers[i]; rr.Scribble && r.Chance(0.4) {
+			ru := &vfReader{ID: len(readers), Doc: vfNDocs - 1, Late: true, Model: rr.Model, Scribble: true, ReuseOf: rr.ID}
+			rr.ReuseBy = ru.ID
+			readers = append(readers, ru)
+			coll.gauges[h.id(ru.Doc)] = &kit.Gauge{}
+		}
+	}
 	vfClock.Advance(11 * time.Second)
 
 	var invoked atomic.Int64
 	var wg sync.WaitGroup
 	released := make(chan struct{})
-	read := func(rr *vfReader) {
+	var read func(rr *vfReader, tgt *vfDoc)
+	read = func(rr *vfReader, tgt *vfDoc) {
 		ctx := context.WithValue(context.Background(), vfReaderKey{}, rr.ID)
 		rr.Inv = kit.Stamp()
-		invoked.Add(1)
-		rr.err = h.models[rr.Model].FindOne(ctx, h.key(rr.Doc), &rr.Got, bson.M{"_id": h.id(rr.Doc)})
+		if rr.ReuseOf < 0 {
+			invoked.Add(1)
+		}
+		rr.err = h.models[rr.Model].FindOne(ctx, h.key(rr.Doc), tgt, bson.M{"_id": h.id(rr.Doc)})
+		rr.Got = *tgt // the result is taken out: the object is the caller's again
 		rr.Ret = kit.Stamp()
+		if rr.Scribble {
+			*tgt = vfScribble(rr.ID)
+		}
+		if rr.ReuseBy > 0 {
+			read(readers[rr.ReuseBy], tgt)
+		}
 	}
-	for i, rr := range readers {
+	for i, rr := range readers[:nReaders] {
 		wg.Add(1)
 		go func(i int, rr *vfReader) {
 			defer wg.Done()
@@ -1126,7 +1284,7 @@ func vfBurst(w *vfWorld, c *kit.Case) {
 			} else if i%2 == 1 {
 				time.Sleep(delays[i] / 4)
 			}
-			read(rr)
+			read(rr, new(vfDoc))
 		}(i, rr)
 	}
 	go func() {
@@ -1149,14 +1307,14 @@ func vfBurst(w *vfWorld, c *kit.Case) {
 	// one more, sequential, reader per key: served from the cache if anything could be cached
 	if mode != "writes-fail" {
 		seen := map[int]bool{}
-		for _, rr := range readers[:nReaders:nReaders] {
+		for _, rr := range readers[:len(readers):len(readers)] {
 			if seen[rr.Doc] {
 				continue
 			}
 			seen[rr.Doc] = true
-			fr := &vfReader{ID: len(readers), Doc: rr.Doc, Late: true, Model: len(readers) % nModels}
+			fr := &vfReader{ID: len(readers), Doc: rr.Doc, Late: true, Model: len(readers) % nModels, ReuseOf: -1}
 			readers = append(readers, fr)
-			read(fr)
+			read(fr, new(vfDoc))
 		}
 	}
 	for _, n := range h.nodes {
@@ -1195,11 +1353,17 @@ func vfBurst(w *vfWorld, c *kit.Case) {
 			viol("C06/conc/queries-overlap/monc"+where, fmt.Sprintf("%d database queries for %s ran at the same time", g.Max(), id))
 		}
 	}
-	followers, cross, lateHits := 0, 0, 0
+	followers, cross, lateHits, scribbleFollowers, reuseFollowers := 0, 0, 0, 0, 0
 	follower := func(rr *vfReader, q *vfQRec) {
 		followers++
 		if readers[q.Owner].Model != rr.Model {
 			cross++
+		}
+		if own := readers[q.Owner]; own.Scribble {
+			scribbleFollowers++
+			if own.ReuseBy > 0 {
+				reuseFollowers++
+			}
 		}
 	}
 	for _, rr := range readers {
@@ -1214,6 +1378,8 @@ func vfBurst(w *vfWorld, c *kit.Case) {
 				}
 			}
 			switch {
+			case src == nil && vfScribbled(rr.Got):
+				viol("C06/conc/result-changed-by-another-caller-after-its-read-returned", fmt.Sprintf("reader %d returned %v: no query produced that, (part of) it is what another caller wrote into ITS OWN result object after its read had returned", rr.ID, rr.Got))
 			case src == nil:
 				viol("C06/conc/result-of-no-query", fmt.Sprintf("reader %d returned %v, which no query produced", rr.ID, rr.Got))
 			case src.ID != id:
@@ -1238,6 +1404,9 @@ func vfBurst(w *vfWorld, c *kit.Case) {
 				follower(rr, q)
 			}
 		case errors.Is(rr.err, ErrNotFound):
+			if rr.err != ErrNotFound {
+				viol("C06/notfound/not-the-configured-value/"+vfShapeClass(coll.shape), fmt.Sprintf("reader %d returned %q (%T), which is not the configured not-found error itself (the queries report an absent document in shape %s)", rr.ID, rr.err.Error(), rr.err, coll.shape))
+			}
 			ok := false
 			for _, q := range qs {
 				if q.Outcome == "notfound" && q.ID == id && q.Start < rr.Ret {
@@ -1279,6 +1448,8 @@ func vfBurst(w *vfWorld, c *kit.Case) {
 		switch {
 		case mode == "error":
 			viol("C06/dberr/cached/concurrent", fmt.Sprintf("key %s holds %q after a burst in which every query failed", k, e.Val))
+		case mode == "notfound" && vfNegShape(coll.shape):
+			viol("C06/dberr/cached/notfound-"+vfShapeClass(coll.shape), fmt.Sprintf("key %s holds %q after a burst in which every query failed with an error that is not the configured not-found error", k, e.Val))
 		case e.TTL <= 0:
 			viol("C06/ttl/persistent-key/"+cls, fmt.Sprintf("key %s = %q has no TTL", k, e.Val))
 		case e.TTL > hi:
@@ -1307,6 +1478,17 @@ func vfBurst(w *vfWorld, c *kit.Case) {
 	}
 	sort.Slice(evs, func(i, j int) bool { return evs[i].s < evs[j].s })
 	parts := []any{"mburst", cfg.Flavour, mode, nModels}
+	if mode == "notfound" {
+		parts = append(parts, coll.shape)
+		c.Obs("m_bursts_notfound_shape_"+coll.shape, 1)
+	}
+	c.Obs("m_burst_followers_of_a_caller_that_scribbles_over_its_result", int64(scribbleFollowers))
+	c.Obs("m_burst_followers_of_a_caller_that_reuses_its_result_object", int64(reuseFollowers))
+	for _, rr := range readers {
+		if rr.ReuseOf >= 0 {
+			c.Obs("m_burst_reads_into_a_reused_object", 1)
+		}
+	}
 	for _, e := range evs {
 		parts = append(parts, e.op)
 	}
